@@ -14,7 +14,7 @@ export CARGO_NET_OFFLINE=true
 rsync -a --exclude=/target/debug/incremental /repo/ "$M/"
 ( cd "$M" && git apply "$S/patch.diff" ) || { echo "$N: PATCH DOES NOT APPLY"; rm -rf "$M"; exit 2; }
 L="$S/confirm.log"; : > "$L"
-run_tests() { /tmp/inrepo.sh "$M" cargo test --workspace --no-fail-fast --offline > "$S/confirm_tests.log" 2>&1; }
+run_tests() { /verif/tools/inrepo.sh "$M" cargo test --workspace --no-fail-fast --offline > "$S/confirm_tests.log" 2>&1; }
 if [ "${SKIP_TESTS:-0}" = 1 ] && [ -s "$S/confirm_tests.log" ]; then trc=0    # the suite already ran for this patch: its log is kept
 else
 run_tests; trc=$?
@@ -23,9 +23,9 @@ fi
 passed=$(grep -E "^test result:" "$S/confirm_tests.log" | sed -E 's/.* ([0-9]+) passed.*/\1/' | paste -sd+ | bc)
 failed=$(grep -E "^test result:" "$S/confirm_tests.log" | sed -E 's/.* ([0-9]+) failed.*/\1/' | paste -sd+ | bc)
 echo "--- demo on the unchanged tree" >> "$L"
-( cd "$S/demo" && timeout 7200 /tmp/inrepo.sh /tmp/wt/base bash "$S/demo/run.sh" /repo ) >> "$L" 2>&1; d0=$?
+( cd "$S/demo" && timeout 7200 /verif/tools/inrepo.sh /tmp/wt/base bash "$S/demo/run.sh" /repo ) >> "$L" 2>&1; d0=$?
 echo "--- demo on the patched tree" >> "$L"
-( cd "$S/demo" && timeout 7200 /tmp/inrepo.sh "$M" bash "$S/demo/run.sh" /repo ) >> "$L" 2>&1; d1=$?
+( cd "$S/demo" && timeout 7200 /verif/tools/inrepo.sh "$M" bash "$S/demo/run.sh" /repo ) >> "$L" 2>&1; d1=$?
 echo "$N: tests rc=$trc passed=$passed failed=$failed | demo unchanged rc=$d0 | demo patched rc=$d1" | tee -a "$L"
 rm -rf "$M"
 if [ "$trc" = 0 ] && [ "$passed" = 184 ] && [ "$d0" = 0 ] && [ "$d1" != 0 ]; then echo "$N: CONFIRMED" | tee -a "$L"; exit 0; else echo "$N: NOT CONFIRMED" | tee -a "$L"; exit 1; fi
